@@ -33,9 +33,13 @@ TECHNIQUE = ('abstract evaluation of every to_raw/from_raw branch to an exact ra
 BASE_HIT = 'falls through to AbstractDimension'
 
 
-def _evaluator(prog: Program) -> Evaluator:
+def _evaluator(prog: Program, template: bool = False) -> Evaluator:
     def base_hook(ev, func, args, kwargs, st, self_val):
         return Raised(BASE_HIT)
+    if template:
+        # the dimensions do not override to_raw / from_raw: the base methods dispatch to them (template method) and a
+        # unit no dimension claims ends in the base class's validator
+        return Evaluator(prog, hooks={'call:AbstractDimension._validate_unit_type': base_hook})
     return Evaluator(prog, hooks={'call:AbstractDimension.to_raw': base_hook,
                                   'call:AbstractDimension.from_raw': base_hook})
 
@@ -79,7 +83,8 @@ def run(prog: Program, rep, thorough: bool) -> None:
     dims = C.dimension_classes(prog)
     umod = prog.module(C.M_UNIT)
     ucls = C.unit_class(prog)
-    ev = _evaluator(prog)
+    # a unit no dimension claims ends in the base class's validator, whichever class defines to_raw / from_raw
+    ev = _evaluator(prog, template=True)
     ctx = Ctx(umod, None, None, 0)
     v = S('v')
     call = prog.func(C.M_UNIT, 'Unit.__call__')
@@ -92,8 +97,8 @@ def run(prog: Program, rep, thorough: bool) -> None:
     for dname, ci in sorted(dims.items()):
         f_to = prog.find_method(ci, 'to_raw')
         f_from = prog.find_method(ci, 'from_raw')
-        if f_to is None or f_from is None or f_to.cls is not ci or f_from.cls is not ci:
-            raise AnalysisError(f'{dname} does not define its own to_raw/from_raw')
+        if f_to is None or f_from is None:
+            raise AnalysisError(f'{dname} has no to_raw/from_raw')
         rep.saw(f_to)
         rep.saw(f_from)
         declared[dname] = set(C.declared_units(prog, ci).values())
